@@ -24,6 +24,8 @@ RULE = ("1..4 logged cold/hot sources (times on a 5-tick grid so that simultaneo
         "never-completing, 'rude' hot sources that keep pushing after unsubscription) under the real operator on TestScheduler, optional "
         "dispose of the result at a random instant; the recorded global event list is replayed through the Lean machine and the "
         "emitted notifications (timed) and subscribe/unsubscribe effects are compared per event, in same-instant order; "
+        "with_latest_from additionally: all-cold timelines on few distinct instants and (oracle-only) sources that emit inside subscribe, "
+        "checked against the output computed from the source TIMELINES (other sources are subscribed before the primary); "
         "non-trivial = at least one notification reached the operator and at least one output or terminal effect was produced")
 ASSUMPTIONS = ["single-threaded / virtual-time execution: one run is one list of tagged events (C43 covers real threads)",
                "sources do not notify synchronously inside subscribe (the static n-ary operators subscribe all sources first)"]
@@ -54,7 +56,18 @@ def cases(rng, tier):
         else:
             k = rng.choice([1, 2, 2, 3, 3, 4])
         srcs = [cc.gen_src(rng, j) for j in range(k)]
-        yield {"op": op, "n": k, "srcs": srcs, "dispose": cc.gen_dispose(rng, 0.2)}
+        c = {"op": op, "n": k, "srcs": srcs, "dispose": cc.gen_dispose(rng, 0.2)}
+        if op == "with_latest_from":
+            r = rng.random()
+            if r < 0.35:
+                # all cold, few distinct times: a primary element often coincides with an element of another source
+                c["srcs"] = [{"mode": "cold", "msgs": cc.gen_timeline(rng, j, maxn=4, span=15)} for j in range(k)]
+                c["dispose"] = None
+            elif r < 0.5:
+                # oracle-only: every source emits inside subscribe (of(1,2,3).pipe(with_latest_from(of(10))))
+                c["srcs"] = [{"mode": "sync", "msgs": cc.gen_timeline(rng, j, maxn=3, span=5, p_complete=0.85, p_error=0.05)} for j in range(k)]
+                c["dispose"] = None
+        yield c
 
 
 def _run_impl(case):
@@ -95,6 +108,8 @@ def impl(case):
 
 
 def model_request(case):
+    if any(sp_["mode"] == "sync" for sp_ in case["srcs"]):
+        return None     # the static n-ary machines subscribe all sources before the first notification: oracle-only
     sp = cc.split_log(_run(case))
     op = case["op"]
     if op == "amb" and case["n"] % 2 == 0:
@@ -215,11 +230,52 @@ def _cut(outs):
     return res
 
 
+def wlf_reference(case):
+    """with_latest_from from the source TIMELINES (not from what was delivered): the other sources are subscribed before the primary,
+    so among cold (or emit-on-subscribe) sources a notification of another source at the same instant precedes the primary's and
+    is already the latest value. Returns the expected timed output, or None when the rule does not determine the order."""
+    modes = {sp_["mode"] for sp_ in case["srcs"]}
+    if case.get("dispose") is not None or len(modes) != 1 or modes - {"cold", "sync"}:
+        return None
+    sync = modes == {"sync"}
+    evs = []
+    for i, sp_ in enumerate(case["srcs"]):
+        rank = case["n"] if i == 0 else i          # others (in order) before the primary
+        for j, m in enumerate(sp_["msgs"]):
+            t = cc.SUBSCRIBE_AT if sync else cc.SUBSCRIBE_AT + m[0]
+            evs.append(((rank, j) if sync else (t, rank, j), t, i, m))
+    evs.sort(key=lambda x: x[0])
+    latest, out, dead = {}, [], set()
+    for _, t, i, m in evs:
+        if i in dead:
+            continue
+        if m[1] == "N":
+            if i == 0:
+                if len(latest) == case["n"] - 1:
+                    out.append([t, ["N", {"t": [m[2]] + [latest[c] for c in range(1, case["n"])]}]])
+            else:
+                latest[i] = m[2]
+        elif m[1] == "E":
+            out.append([t, ["E", m[2]]])
+            return out
+        else:
+            dead.add(i)
+            if i == 0:
+                out.append([t, ["C"]])
+                return out
+    return out
+
+
 def oracle(case, out):
     log = out["log"]
     got = cc.outputs(out["split"])
     if not cc.grammar_ok(got):
         return f"output is not next* terminal?: {got}"
+    if case["op"] == "with_latest_from":
+        ref = wlf_reference(case)
+        if ref is not None and got != ref:
+            return (f"with_latest_from: got {got}; from the source timelines (the other sources are subscribed before the primary, so their "
+                    f"simultaneous / emit-on-subscribe elements are already the latest values) expected {ref}")
     exp = expected(case, log)
     op = case["op"]
     if op == "combine_latest":
@@ -283,6 +339,8 @@ def bucket(case, out):
     ts = [t for t, _ in sp["events"]]
     yield "simultaneous=" + str(len(ts) != len(set(ts)))
     yield "dispose=" + str(case.get("dispose") is not None)
+    if case["op"] == "with_latest_from" and wlf_reference(case) is not None:
+        yield "wlf_timeline_oracle=" + case["srcs"][0]["mode"]
     for s in case["srcs"]:
         yield "src=" + s["mode"] + ("-rude" if s.get("rude") else "")
 
